@@ -14,7 +14,7 @@ structure DRel (s : St) (ss : SpecSt) : Prop where
   scope : DScope s ss
   out : s.abs.out = ss.out
   next : s.abs.decls.length = ss.next
-  reg : ∀ n ∈ s.abs.decls, s.innerUsed n = true
+  reg : ∀ n ∈ s.abs.decls, n ∈ s.root.innerNames
 
 /-- a statement-level function that reports no error preserves the relation -/
 def StD (f : St → St) (F : SpecSt → SpecSt) : Prop :=
@@ -87,6 +87,14 @@ theorem innerUsed_registerInner (n : Name) (s : St) (x : Name) :
   · rintro (⟨b, hb, h⟩ | h)
     · exact ⟨b, hb, Or.inr h⟩
     · exact ⟨s.root, by simp [St.frames], Or.inl h⟩
+
+theorem innerUsed_false_root' {s : St} {n : Name} (h : s.innerUsed n = false) : n ∉ s.root.innerNames := by
+  intro hm
+  unfold St.innerUsed at h
+  have : (s.frames.any fun b => b.innerNames.contains n) = true := by
+    rw [List.any_eq_true]
+    exact ⟨s.root, by simp [St.frames], by simpa using hm⟩
+  rw [this] at h; cases h
 
 /-! ### Declaration scopes -/
 
@@ -182,8 +190,8 @@ theorem den_let {g : Globals} {rg : RGlobals} (hg : GlobRel g rg) (hn : GNames g
         have hnot : inner ∉ s1.abs.decls := by
           intro hmem
           have := hr.reg inner (by rw [← t1.decls]; exact hmem)
-          rw [← t1.inner, hfresh] at this
-          cases this
+          rw [← t1.rootNames] at this
+          exact innerUsed_false_root' hfresh this
         -- the abstract reading of the new state
         have habs : (((s1.insertValue b.name ⟨inner, r.ty, b.mutable, false, false⟩).registerInner inner).push
             (.letBinding ⟨inner, r.ty, b.mutable, false, false⟩ r)).abs =
@@ -232,10 +240,14 @@ theorem den_let {g : Globals} {rg : RGlobals} (hg : GlobRel g rg) (hn : GNames g
         · intro n hnm
           rw [habs] at hnm
           simp only [AbsSt.emit_decls, List.mem_append, List.mem_singleton] at hnm
-          rw [innerUsed_push, innerUsed_registerInner, innerUsed_insertValue]
+          have hroot : (((s1.insertValue b.name ⟨inner, r.ty, b.mutable, false, false⟩).registerInner inner).push
+              (.letBinding ⟨inner, r.ty, b.mutable, false, false⟩ r)).root.innerNames = setInsert inner s1.root.innerNames := by
+            unfold St.push St.registerInner St.mapFrames St.insertValue St.mapCur
+            cases s1.inner <;> rfl
+          rw [hroot, mem_setInsert]
           rcases hnm with hnm | rfl
-          · rw [t1.inner, hr.reg n (by rw [← t1.decls]; exact hnm)]; rfl
-          · simp
+          · right; rw [t1.rootNames]; exact hr.reg n (by rw [← t1.decls]; exact hnm)
+          · left; rfl
 
 
 /-! ### Relation bookkeeping for the remaining statements -/
@@ -243,7 +255,7 @@ theorem den_let {g : Globals} {rg : RGlobals} (hg : GlobRel g rg) (hn : GNames g
 theorem drel_trans {s s1 : St} {ss : SpecSt} {evs : List DStmt} (hr : DRel s ss) (t1 : Trans s s1 evs) :
     DRel s1 (ss.emits evs) :=
   ⟨⟨(hr.scope.of_trans t1).sc, (hr.scope.of_trans t1).dv⟩, by rw [t1.out, hr.out]; rfl, by rw [t1.decls]; exact hr.next,
-   fun n hn => by rw [t1.inner]; exact hr.reg n (by rw [← t1.decls]; exact hn)⟩
+   fun n hn => by rw [t1.rootNames]; exact hr.reg n (by rw [← t1.decls]; exact hn)⟩
 
 /-- pushing an instruction that only appends statement `d` to the abstract reading -/
 theorem drel_push_emit {s : St} {ss : SpecSt} (hr : DRel s ss) (i : Instr) (d : DStmt)
@@ -251,14 +263,14 @@ theorem drel_push_emit {s : St} {ss : SpecSt} (hr : DRel s ss) (i : Instr) (d : 
     DRel (s.push i) (ss.emit d) :=
   ⟨⟨by unfold ScopeRel; rw [vals_push]; exact hr.scope.sc, by rw [abs_push, hd, vals_push]; exact hr.scope.dv⟩,
    by rw [abs_push, ho, hr.out]; rfl, by rw [abs_push, hd]; exact hr.next,
-   fun n hn => by rw [innerUsed_push]; exact hr.reg n (by rw [abs_push, hd] at hn; exact hn)⟩
+   fun n hn => hr.reg n (by rw [abs_push, hd] at hn; exact hn)⟩
 
 /-- pushing an instruction the abstract reading ignores (labels, jumps) -/
 theorem drel_push_skip {s : St} {ss : SpecSt} (hr : DRel s ss) (i : Instr) (hi : abstractStep s.abs i = s.abs) :
     DRel (s.push i) ss :=
   ⟨⟨by unfold ScopeRel; rw [vals_push]; exact hr.scope.sc, by rw [abs_push, hi, vals_push]; exact hr.scope.dv⟩,
    by rw [abs_push, hi]; exact hr.out, by rw [abs_push, hi]; exact hr.next,
-   fun n hn => by rw [innerUsed_push]; exact hr.reg n (by rw [abs_push, hi] at hn; exact hn)⟩
+   fun n hn => hr.reg n (by rw [abs_push, hi] at hn; exact hn)⟩
 
 theorem len_of_ext {a b : List Err} (h : ∃ Δ, b = a ++ Δ) : a.length ≤ b.length := by
   obtain ⟨Δ, h⟩ := h; rw [h]; simp
@@ -532,7 +544,7 @@ theorem innerUsed_setReturn (s : St) (n : Name) : s.setReturn.innerUsed n = s.in
 theorem drel_setReturn {s : St} {ss : SpecSt} (hr : DRel s ss) : DRel s.setReturn ss :=
   ⟨⟨by unfold ScopeRel; rw [vals_setReturn]; exact hr.scope.sc, by rw [abs_setReturn, vals_setReturn]; exact hr.scope.dv⟩,
    by rw [abs_setReturn]; exact hr.out, by rw [abs_setReturn]; exact hr.next,
-   fun n hn => by rw [innerUsed_setReturn]; exact hr.reg n (by rw [abs_setReturn] at hn; exact hn)⟩
+   fun n hn => hr.reg n (by rw [abs_setReturn] at hn; exact hn)⟩
 
 theorem den_nestedReturn {g : Globals} {rg : RGlobals} (hg : GlobRel g rg) (hn : GNames g) (e : Expr)
     (s : St) (ss : SpecSt) (hr : DRel s ss) (he : (nestedReturn g e s).1.errors = s.errors) :
